@@ -53,6 +53,8 @@ def main():
                 what = [l.strip() for l in rr.stdout.split("\n") if l.startswith("  -> ")]
                 out[c] = {"exit": rr.returncode, "violations": viol[:4], "what": what[:4], "wall_s": round(time.time() - t, 1)}
                 print(hid, c, "exit", rr.returncode, (viol[:1] + what[:1]))
+            if only and results.get(hid, {}).get("checks"):     # partial re-run: keep the other checks' earlier results
+                out = dict(results[hid]["checks"], **out)
             results[hid] = {"applied": True, "files": files, "checks": out, "false_alarms": [c for c, v in out.items() if v["exit"] != 0]}
         finally:
             shutil.rmtree(scratch, ignore_errors=True)
